@@ -470,7 +470,7 @@ func c12Judge(c *mon.Ctx, in *c12In) {
 		c.Count("skipped:quote-out-of-domain")
 		return
 	}
-	tx := in.Tx.shape().Build()
+	tx := in.Tx.build(c)
 	fq := in.Quote.lib()
 	q := in.Quote.ref()
 	before := takeSnap(tx)
